@@ -33,10 +33,10 @@ CONSTANTS ReqKinds,        \* subset of {"get","post","chunked","badval","badfra
                            \* a client error upstream (the code since /repo commit 3a57873aa); FALSE = it leaves
                            \* server_state untouched (the code as first found, findings_proposed/C03.md) -- only used to
                            \* show that the monitor's clauses are reachable in the pre-repair model
-          BadFrameKept     \* named deviation: TRUE = Http1Client.read_headers keeps self.response when the head parsed but
-                           \* expected_http_body_size raised (the code as found, findings_proposed/C03.md addendum): the
+          BadFrameKept     \* named deviation: FALSE = Http1Client.read_headers drops a response head whose framing is
+                           \* undecidable (the code since /repo commit 6b67c94f8); TRUE = it stays in self.response and the
                            \* unguarded expected_http_body_size(self.request, self.response) in send(RequestEndOfMessage)
-                           \* then raises ValueError; FALSE = the response is only kept once its framing is known
+                           \* raises ValueError (the code as first found, findings_proposed/C03.md F3) -- design run only
 VARIABLES s, mon, obs, ended
 vars == <<s, mon, obs, ended>>
 
